@@ -744,6 +744,20 @@ class ExprMixin:
                 self.hstore(s, r, 'cat', self.hload(s, src, 'cat'))
                 s = s.assume(z3.And(n >= 0, n <= self.hload(s, src, 'len')))
                 return [(r, s)]
+            if isinstance(src, SIterView) and src.what in ('values', 'items') and not gen.ifs and not gen.is_async:
+                # [e for <target> in d.values()/d.items()] with an integer e: known only as the term of a sum over the keys
+                d = src.ref
+                cls = d.cls
+                kb = z3.Const(st.fresh.name('kc'), cls.k.sort())
+                item_v = self.wrap(cls.v, z3.Select(self.hload(st, d, 'val'), kb))
+                item = item_v if src.what == 'values' else STuple([self.wrap(cls.k, kb), item_v])
+                s2 = st.copy()
+                res = self.assign(tgt, item, s2)
+                if len(res) == 1 and res[0][0] == 'next':
+                    e = self.ev1(node.elt, res[0][2])
+                    if isinstance(e, SInt):
+                        dom = self.hload(st, d, 'dom')
+                        return [(SFunc('intcomp', z3.Lambda([kb], z3.If(z3.Select(dom, kb), e.t, 0))), st)]
         raise Unsupported('list comprehension at line %d' % node.lineno)
 
     def ev_GeneratorExp(self, node, st):
